@@ -203,16 +203,30 @@ func balance() {
 func one(d desc, mode string) {
 	p, class, msg := build(d)
 	run.Count("class:" + class)
+	if class == clsDeclared && !admissible(d) {
+		run.Count("inadmissible:rejected")
+		return
+	}
 	if class != clsOK {
 		// an admissible parameter choice must be accepted
 		add(hx.Case{Kind: "prim", Desc: d, Coq: "CGoOnly", Key: d.key(), Nontriv: false,
 			GoFail: fmt.Sprintf("constructor failed on admissible parameters (%s): %s", class, msg)}, 1)
 		return
 	}
+	if d.Via != "" {
+		run.Count("via:" + d.Via)
+	}
+	if d.NilIn || !admissible(d) {
+		// node defaults / counts the node clamps: the parameters in effect are the node's business; the result is
+		// judged by the property alone (closed, oriented, outward, normals), not compared with the model
+		run.Count("judged:without-parameters")
+		add(hx.Case{Kind: "prim", Desc: d, Coq: "CGoOnly", Key: d.key(), Nontriv: len(p.Idx) >= 3, GoFail: genericOracle(d, p)}, 1)
+		return
+	}
 	scale := maxAbs(p.Pos)
-	tol := minSize(d) // merge tolerance is relative to the smallest size parameter
-	exact := classes(p.Pos, 0)
-	rep := classes(p.Pos, 1e-9*tol)
+	// merge tolerance: relative to the extent of the result along each axis
+	exact := classes(p.Pos, [3]float64{})
+	rep := classes(p.Pos, axisTol(p.Pos, 1e-9))
 	same := true
 	for i := range rep {
 		if rep[i] != exact[i] {
@@ -227,7 +241,7 @@ func one(d desc, mode string) {
 	}
 	// a second, much coarser tolerance must give the same classes: the merge is not sensitive to the tolerance
 	gofail := ""
-	coarse := classes(p.Pos, 1e-7*tol)
+	coarse := classes(p.Pos, axisTol(p.Pos, 1e-7))
 	for i := range rep {
 		if rep[i] != coarse[i] {
 			// only meaningful when the resolution is far from the tolerance
@@ -320,6 +334,19 @@ func one(d desc, mode string) {
 	add(c, w)
 }
 
+// admissible: the parameter ranges the property quantifies over (counts the constructors accept, sizes > 0)
+func admissible(d desc) bool {
+	switch d.Fam {
+	case "sphere", "sphereU", "hemi":
+		return d.Rows >= 2 && d.Cols >= 3 && d.Radius > 0
+	case "cyl":
+		return d.Sides >= 3 && d.Radius > 0 && d.Height > 0
+	case "cubeW", "cubeQ":
+		return d.Width > 0 && d.Height > 0 && d.Depth > 0
+	}
+	return false
+}
+
 func zlit(x int64) string {
 	if x < 0 {
 		return fmt.Sprintf("(%d)", x)
@@ -368,11 +395,17 @@ func conv(cd convDesc) {
 
 func reject(rd rejectDesc) {
 	d := desc{Fam: rd.Fam, Rows: rd.Rows, Cols: rd.Cols, Radius: 1}
-	_, class, _ := build(d)
+	p, class, _ := build(d)
 	kind := map[string]int{"sphere": 0, "sphereU": 1, "hemi": 2}[rd.Fam]
 	fail := ""
 	if class == clsCrash {
 		fail = "constructor crashed with a runtime error instead of rejecting the parameters"
+	}
+	if class == clsOK {
+		// the property quantifies over every count the constructor accepts: whatever it accepts must be a solid
+		if msg := genericOracle(d, p); msg != "" {
+			fail = fmt.Sprintf("constructor accepts rows=%d columns=%d but the result is not a closed outward solid: %s", rd.Rows, rd.Cols, msg)
+		}
 	}
 	run.Count("reject:" + class)
 	add(hx.Case{Kind: "reject", Desc: rd, Key: fmt.Sprintf("reject/%s/%d/%d", rd.Fam, rd.Rows, rd.Cols), Nontriv: false, GoFail: fail,
@@ -386,7 +419,7 @@ func cylDegenerate(sides int) {
 	p, class, _ := build(d)
 	state := class
 	if class == clsOK {
-		rep := classes(p.Pos, 1e-9)
+		rep := classes(p.Pos, axisTol(p.Pos, 1e-9))
 		w := make([]int, len(p.Idx))
 		ok := true
 		for i, x := range p.Idx {
@@ -412,7 +445,7 @@ func coneObserve(sides int) {
 	p, class, _ := build(d)
 	state := class
 	if class == clsOK {
-		rep := classes(p.Pos, 1e-9)
+		rep := classes(p.Pos, axisTol(p.Pos, 1e-9))
 		type e struct{ a, b int }
 		seen := map[e]int{}
 		ok := len(p.Idx)%3 == 0
@@ -537,6 +570,7 @@ func main() {
 			one(desc{Fam: fam, Width: 1, Height: 1, Depth: 1, UV: uv}, "auto")
 		}
 	}
+	round4Cases(r, thorough)
 	// --- parameters the constructors must reject (and the boundary they must accept) ---
 	for _, fam := range []string{"sphere", "sphereU", "hemi"} {
 		for _, rc := range [][2]int{{1, 3}, {2, 2}, {0, 0}, {1, 8}, {8, 2}, {-1, 5}, {5, -1}, {2, 3}, {0, 3}, {2, 0}} {
@@ -561,6 +595,14 @@ func main() {
 	bigCases(r, thorough)
 	// --- sampled: large counts (hash) and random small/medium counts with random sizes ---
 	for i := 0; i < run.N; i++ {
+		switch r.Intn(10) {
+		case 8:
+			sampleScaled(r)
+			continue
+		case 9:
+			sampleNode(r)
+			continue
+		}
 		switch r.Intn(8) {
 		case 0:
 			one(desc{Fam: "sphere", Rows: r.Range(25, big), Cols: r.Range(25, big), Radius: randSize(r)}, "hash")
